@@ -13,48 +13,6 @@ static pbt::Shared g_aux;       // tape of the auxiliary (non-recorded) generato
 
 namespace {
 
-// number of measured cells with a signal path, per independent system, as vnacal_new(3) counts equations
-// (T types: measured row x S column; U types: S row x measured column; both need a path)
-std::vector<int> count_equations(const Scenario &sc, size_t nstd) {
-    int nsys = vm::is_colsys(sc.type) ? sc.c : 1;
-    std::vector<int> eq(nsys, 0);
-    for (size_t s = 0; s < nstd; s++) {
-        const Standard &st = sc.stds[s];
-        // connectivity classes as in leakage_uncovered()
-        int P = sc.P; std::vector<int> cls(P);
-        for (int p = 0; p < P; p++) cls[p] = st.connected(p) ? p : -1;
-        auto merge = [&](int a, int b) { int ca = cls[a], cb = cls[b]; if (ca == cb) return; for (auto &x : cls) if (x == cb) x = ca; };
-        if (st.entry == Standard::THROUGH) merge(st.ports[0], st.ports[1]);
-        else if (st.entry >= Standard::LINE) for (int i = 0; i < st.k; i++) for (int j = 0; j < st.k; j++) if (i != j) {
-            const SCell &cell = st.cells[i * st.k + j];
-            bool kz = cell.kind == SCell::MATCH || (cell.kind == SCell::SCALAR && cell.v[0] == C(0, 0));
-            if (!kz) merge(st.ports[i], st.ports[j]);
-        }
-        if (vm::is_16(sc.type)) {
-            // 16-term: one equation per (measured row x known S column) for T, (known S row x measured column)
-            // for U -- a row/column of S is known for every port the standard connects
-            int nconn = 0; for (int p = 0; p < P; p++) if (st.connected(p)) nconn++;
-            eq[0] += sc.type == vm::T16 ? (int)supplied_rows(sc, st).size() * nconn : nconn * (int)supplied_cols(sc, st).size();
-            continue;
-        }
-        for (int i : supplied_rows(sc, st)) for (int j : supplied_cols(sc, st)) {
-            if (!st.connected(i) || !st.connected(j)) continue;          // needs known S row/column
-            if (!vm::is_16(sc.type) && cls[i] != cls[j]) continue;       // no path: leakage sample, not an equation
-            eq[vm::is_colsys(sc.type) ? j : 0]++;
-        }
-    }
-    return eq;
-}
-int unknowns_per_system(const Scenario &sc) {
-    int r = sc.r, cc = sc.c, P = sc.P;
-    switch (sc.type) {
-    case vm::T8: case vm::U8: case vm::TE10: case vm::UE10: return 2 * r + 2 * cc - 1;
-    case vm::T16: return 2 * r * cc + 2 * cc * cc - 1;
-    case vm::U16: return 2 * r * cc + 2 * r * r - 1;
-    default: return 2 * P + 1;        // UE14/E12: um(r) ui(1) ux(r) us(1) minus the unity term, per column
-    }
-}
-
 } // namespace
 
 void pbt_property(Ctx &c) {
